@@ -108,6 +108,7 @@ def request(chk: Check, repo: Repo) -> None:
         "matcher rejects first, then closed by _stop": ("fn", ["answer:reject", "cancel:closed"]),
         "task cancelled (channel still open)": ("fn", ["cancel:task"]),
         "matcher rejects first, then task cancelled": ("fn", ["answer:reject", "cancel:task"]),
+        "stale answer and close in the same loop iteration (nothing left to cancel)": ("fn", ["answer:reject+closed", "timeout"]),
         "send fails": ("fn", ["send:fail"]),
         "no connection": ("fn", ["nochannel"]),
     }
@@ -122,7 +123,7 @@ def request(chk: Check, repo: Repo) -> None:
                 return [Outcome(None, Obj("Future", f"f{k}"))]
             if n == "matches":
                 i = env.get("#answers", 1) - 1
-                return [Outcome(f"MATCH:{script[i].split(':')[1]}", script[i].endswith("accept"))]
+                return [Outcome(f"MATCH:{script[i].split(':')[1].split('+')[0]}", script[i].endswith("accept"))]
             if isinstance(c.func, ast.Attribute) and c.func.attr == "cancelled":
                 rv = am.ev(c.func.value, env, {})
                 if isinstance(rv, Obj) and rv.cls == "Future":
@@ -143,6 +144,8 @@ def request(chk: Check, repo: Repo) -> None:
                 e2 = dict(env); e2["#answers"] = i + 1
                 tr = tuple(env.get("trace", ()))
                 if ev.startswith("answer"):
+                    if ev.endswith("+closed"):
+                        e2["self.communication_channel"] = None  # _stop() ran after the future was answered: it found nothing to cancel
                     e2["trace"] = tr + (f"AWAIT({awaited!r})",)
                     e2[ast.unparse(a.targets[0])] = Obj("CEMIFrame", f"answer{i}")
                     return [("next", e2)]
@@ -175,6 +178,7 @@ def request(chk: Check, repo: Repo) -> None:
             "matcher rejects first, then closed by _stop": {(("SEND", f"AWAIT({F0})", "MATCH:reject", f"AWAIT({F1}):CancelledError"), "raise CommunicationError", "None")},
             "task cancelled (channel still open)": {(("SEND", f"AWAIT({F0}):CancelledError"), "raise CancelledError", "None")},
             "matcher rejects first, then task cancelled": {(("SEND", f"AWAIT({F0})", "MATCH:reject", f"AWAIT({F1}):CancelledError"), "raise CancelledError", "None")},
+            "stale answer and close in the same loop iteration (nothing left to cancel)": {(("SEND", f"AWAIT({F0})", "MATCH:reject"), "raise CommunicationError", "None")},
             "send fails": {(("SEND:fail",), "raise CommunicationError", "None")},
             "no connection": {((), "raise CommunicationError", repr(None))},
         }[label]
